@@ -468,6 +468,8 @@ static jwk_set_t *load_via(int ep, const char *doc, size_t len, size_t *skip)
 
 static long c07_loads, c07_items_ok, c07_items_err, c07_nonjson;
 
+static int c14_projection;   /* --prop C14: only the "flagged and explained" clauses are judged */
+#define C07V(key, ...) do { if (!c14_projection || !strcmp(key, "jwk|bad-item-without-message") || !strcmp(key, "jwk|non-json-without-set-error")) vf_violation(key, __VA_ARGS__); } while (0)
 /* judge one document through the given entry points */
 static void c07_doc(const char *doc, size_t len, unsigned epmask, int use)
 {
@@ -504,7 +506,7 @@ static void c07_doc(const char *doc, size_t len, unsigned epmask, int use)
 			vf_nontrivial(vf_hash(doc, len));
 		int streaming = ep == EP_FILE || ep == EP_FP;
 		if (d.set_null)
-			vf_violation("jwk|no-set-returned", "%s returned NULL for %zu bytes: %s", ep_name[ep], len, vf_escn(doc, len > 200 ? 200 : len));
+			C07V("jwk|no-set-returned", "%s returned NULL for %zu bytes: %s", ep_name[ep], len, vf_escn(doc, len > 200 ? 200 : len));
 		else {
 			int is_json = j != NULL;
 			if (streaming && !is_json) {
@@ -512,31 +514,31 @@ static void c07_doc(const char *doc, size_t len, unsigned epmask, int use)
 			}
 			if (!is_json) {
 				if (!d.set_err || !d.set_msg)
-					vf_violation("jwk|non-json-without-set-error", "%s: input is not JSON (%s) but the set reports no error: %s", ep_name[ep], jerr.text,
+					C07V("jwk|non-json-without-set-error", "%s: input is not JSON (%s) but the set reports no error: %s", ep_name[ep], jerr.text,
 						     vf_escn(doc, len > 200 ? 200 : len));
 				if (d.n != 0)
-					vf_violation("jwk|non-json-gains-items", "%s: input is not JSON but %d item(s) appeared: %s", ep_name[ep], d.n, vf_escn(doc, len > 200 ? 200 : len));
+					C07V("jwk|non-json-gains-items", "%s: input is not JSON but %d item(s) appeared: %s", ep_name[ep], d.n, vf_escn(doc, len > 200 ? 200 : len));
 			} else {
 				if (d.set_err)
-					vf_violation("jwk|json-but-set-error", "%s: input is JSON but the set reports an error (%s): %s", ep_name[ep], jwks_error_msg(s),
+					C07V("jwk|json-but-set-error", "%s: input is JSON but the set reports an error (%s): %s", ep_name[ep], jwks_error_msg(s),
 						     vf_escn(doc, len > 200 ? 200 : len));
 				if (want_items >= 0 && d.n != want_items)
-					vf_violation("jwk|item-count-differs", "%s: %d new item(s), expected %d: %s", ep_name[ep], d.n, want_items, vf_escn(doc, len > 300 ? 300 : len));
+					C07V("jwk|item-count-differs", "%s: %d new item(s), expected %d: %s", ep_name[ep], d.n, want_items, vf_escn(doc, len > 300 ? 300 : len));
 			}
 			for (int i = 0; i < d.n && i < 24; i++) {
 				if (d.it[i].err) {
 					c07_items_err++;
 					if (!d.it[i].has_msg)
-						vf_violation("jwk|bad-item-without-message", "%s: item %d has error but no message: %s", ep_name[ep], i, vf_escn(doc, len > 300 ? 300 : len));
+						C07V("jwk|bad-item-without-message", "%s: item %d has error but no message: %s", ep_name[ep], i, vf_escn(doc, len > 300 ? 300 : len));
 				} else {
 					c07_items_ok++;
 					if (d.it[i].kty == JWK_KEY_TYPE_NONE || !d.it[i].has_material)
-						vf_violation("jwk|unusable-item-without-error", "%s: item %d reports no error but kty=%d material=%d: %s", ep_name[ep], i, d.it[i].kty,
+						C07V("jwk|unusable-item-without-error", "%s: item %d reports no error but kty=%d material=%d: %s", ep_name[ep], i, d.it[i].kty,
 							     d.it[i].has_material, vf_escn(doc, len > 300 ? 300 : len));
 				}
 			}
 			if (have_first && !dsum_same(&first, &d))
-				vf_violation("jwk|entry-points-disagree", "%s disagrees with the first entry point on: %s", ep_name[ep], vf_escn(doc, len > 300 ? 300 : len));
+				C07V("jwk|entry-points-disagree", "%s disagrees with the first entry point on: %s", ep_name[ep], vf_escn(doc, len > 300 ? 300 : len));
 			if (!have_first) {
 				first = d;
 				have_first = 1;
@@ -555,7 +557,7 @@ static void c07_doc(const char *doc, size_t len, unsigned epmask, int use)
 			summarize(s1, 0, &d1, 0);
 			if ((int)i < first.n && i < 24 && d1.n == 1 &&
 			    (d1.it[0].kty != first.it[i].kty || d1.it[0].err != first.it[i].err || strcmp(d1.it[0].kid, first.it[i].kid)))
-				vf_violation("jwk|document-order-differs", "element %zu loaded alone is (kty %d, err %d, kid %s) but item %zu of the set is (kty %d, err %d, kid %s): %s", i,
+				C07V("jwk|document-order-differs", "element %zu loaded alone is (kty %d, err %d, kid %s) but item %zu of the set is (kty %d, err %d, kid %s): %s", i,
 					     d1.it[0].kty, d1.it[0].err, d1.it[0].kid, i, first.it[i].kty, first.it[i].err, first.it[i].kid, vf_escn(doc, len > 200 ? 200 : len));
 			jwks_free(s1);
 			free(txt);
@@ -1153,6 +1155,10 @@ static void enumerate(void)
 		enumerate_c07();
 	else if (!strcmp(vf_prop, "C08"))
 		enumerate_c08();
+	else if (!strcmp(vf_prop, "C14")) {
+		c14_projection = 1;
+		enumerate_c07();
+	}
 	else {
 		fprintf(stderr, "jwk: unknown --prop %s\n", vf_prop);
 		exit(2);
